@@ -46,7 +46,8 @@ def leaf_candidates(lt, cur, room, n):
             lo, hi = xt.int_range(kind)
             cands = [(n * 7 + 5) % hi + 1, hi, lo]
         return [c for c in cands if not xt.veq(c, cur)][:2]
-    cands = ["Z" * room, "", "é" * (room // 2)]
+    # a multi-byte value that fills the room exactly (in BYTES), the empty string, an ASCII fill
+    cands = ["é" * (room // 2) + "Z" * (room % 2), "", "Z" * room, "\U0001f600" * (room // 4)]
     return [c for c in cands if c != cur and len(c.encode("utf8")) <= room][:2]
 
 
